@@ -94,6 +94,8 @@ func (m *c13model) eval(n *Node, ch thunk) []string {
 			out = append(out, children()...)
 		}
 		return append(out, "/w")
+	case "hwchildrenbuf":
+		return cat([]string{"w:" + n.S}, children(), []string{"/w"})
 	case "hwignore":
 		if ch != nil {
 			m.unconsumed = true
@@ -193,10 +195,10 @@ func (g *c13gen) callee(budget *int, depth int) *Node {
 	t := g.t
 	// templ.Join is never *given* a block: what its elements should then receive is not
 	// defined by the statement (it passes its context on), so that shape is not judged.
-	kinds := []string{"slot", "slot", "slottwice", "noslot", "passdown", "slotaround", "hwchildren", "flushcallee", "hwwrapslot", "oncecallee", "hwignore", "raw", "join", "hwforward", "hwnonce", "hwclear"}
+	kinds := []string{"slot", "slot", "slottwice", "noslot", "passdown", "slotaround", "hwchildren", "flushcallee", "hwwrapslot", "oncecallee", "hwignore", "raw", "join", "hwforward", "hwnonce", "hwclear", "hwchildrenbuf"}
 	k := kinds[t.Choose(len(kinds), "calleekind")]
 	switch k {
-	case "slot", "slottwice", "noslot", "hwignore":
+	case "slot", "slottwice", "noslot", "hwignore", "hwchildrenbuf":
 		return &Node{K: k, S: g.id("c")}
 	case "raw":
 		return &Node{K: "raw", S: "r"}
